@@ -656,7 +656,17 @@ func resultIndexOf(w ssa.Value, call *ssa.Call) int {
 
 func ruleReadValueAfterCheck(c *Check, p *Program, rule string) {
 	n := 0
-	for _, fn := range readerSideFuncs(p) {
+	var fns []*ssa.Function
+	seenFn := map[*ssa.Function]bool{}
+	for _, top := range readerSideFuncs(p) {
+		for _, g := range deepFuncs(top, 2) {
+			if !seenFn[g] && !isSourceRead32(g) {
+				seenFn[g] = true
+				fns = append(fns, g)
+			}
+		}
+	}
+	for _, fn := range fns {
 		nf := 0
 		for _, ci := range callsIn(fn) {
 			call, isCall := ci.(*ssa.Call)
